@@ -10,6 +10,7 @@ path (re-execution under an assignment of those bits).
 from __future__ import annotations
 
 import ast
+import time as _time
 import itertools
 import struct as _struct
 
@@ -364,6 +365,26 @@ def as_bits(v):
     return None
 
 
+
+def record_fields(cls):
+    """(kind, [(field, default_expr | None)]) for a NamedTuple subclass or a @dataclass without an explicit __init__; None otherwise"""
+    decos = {d.id if isinstance(d, ast.Name) else getattr(d, "attr", None) if not isinstance(d, ast.Call) else
+             (d.func.id if isinstance(d.func, ast.Name) else getattr(d.func, "attr", None)) for d in cls.node.decorator_list}
+    is_nt = any(b == "NamedTuple" for b in cls.base_names)
+    is_dc = "dataclass" in decos
+    if not (is_nt or is_dc) or "__init__" in cls.methods:
+        return None
+    fields = []
+    for c in reversed(cls.mro()):
+        for n in c.node.body:
+            if isinstance(n, ast.AnnAssign) and isinstance(n.target, ast.Name):
+                ann = ast.unparse(n.annotation)
+                if ann.startswith("ClassVar") or ann.startswith("typing.ClassVar"):
+                    continue
+                fields = [f for f in fields if f[0] != n.target.id] + [(n.target.id, n.value)]
+    return ("namedtuple" if is_nt else "dataclass"), fields
+
+
 class Interp:
     def __init__(self, repo, folder: Folder | None = None, asg=None, hooks=None, unknown_cond="split"):
         self.repo = repo
@@ -448,8 +469,11 @@ class Interp:
 
     def exec_stmt(self, s, env, func):
         self.steps += 1
-        if self.steps > 2_000_000:
+        if self.steps > 150_000:
             raise AnalysisError("abstract interpretation step budget exceeded in %s" % func.qualname)
+        if DEADLINE is not None and (self.steps & 255) == 0 and _time.time() > DEADLINE:
+            raise AnalysisError("abstract interpretation exceeded the wall-clock budget of the %s tier in %s (the code under analysis makes the "
+                                "abstract execution explode; no verdict)" % (TIER_NAME, func.qualname))
         if isinstance(s, ast.Expr):
             if isinstance(s.value, ast.Constant):
                 return
@@ -613,6 +637,8 @@ class Interp:
         return False
 
     def concrete_iter(self, it):
+        if isinstance(it, Obj) and "__record_fields__" in it.attrs:
+            return [it.attrs[f] for f in it.attrs["__record_fields__"]]
         if isinstance(it, (list, tuple)):
             return list(it)
         if isinstance(it, range):
@@ -1571,6 +1597,25 @@ class Interp:
                 return Sym("enum", cls.name, args[0])
             if cls.is_subclass_of("Exception") or cls.name.endswith("Error") or cls.name.startswith("Invalid"):
                 return Sym("exc", cls.name)
+            rf = record_fields(cls)
+            if rf is not None:
+                kind, fields = rf
+                if len(args) <= len(fields) and all(k in dict(fields) for k in (kwargs or {})):
+                    o = Obj(cls, cls.name)
+                    ok = True
+                    for i, (fname, dflt) in enumerate(fields):
+                        if i < len(args):
+                            o.attrs[fname] = args[i]
+                        elif kwargs and fname in kwargs:
+                            o.attrs[fname] = kwargs[fname]
+                        elif dflt is not None and not (isinstance(dflt, ast.Call) and getattr(dflt.func, "id", getattr(dflt.func, "attr", None)) == "field"):
+                            o.attrs[fname] = self.eval(dflt, self.class_scope(cls, dflt), _ModuleCtx(cls.module))
+                        else:
+                            ok = False
+                    if ok:
+                        if kind == "namedtuple":
+                            o.attrs["__record_fields__"] = tuple(f for f, _ in fields)
+                        return o
             return Sym("new", cls.name, *args)
         if name == "Struct" and func is not None and func.module.imports.get("Struct") == ("struct", "Struct") and len(args) == 1:
             if isinstance(args[0], str):
@@ -1912,15 +1957,24 @@ def _is_strterm(v):
 
 
 def _is_generator(fnode):
+    r = getattr(fnode, "_ag_is_gen", None)
+    if r is not None:
+        return r
+    r = False
     stack = list(fnode.body)
     while stack:
         n = stack.pop()
         if isinstance(n, (ast.Yield, ast.YieldFrom)):
-            return True
+            r = True
+            break
         if isinstance(n, (ast.FunctionDef, ast.AsyncFunctionDef, ast.Lambda, ast.ClassDef)):
             continue
         stack.extend(ast.iter_child_nodes(n))
-    return False
+    try:
+        fnode._ag_is_gen = r
+    except Exception:
+        pass
+    return r
 
 
 class PartialV:
@@ -2156,6 +2210,8 @@ for _n in ("abs", "min", "max", "str", "float", "bool", "hex", "sorted", "list",
 
 
 # ---------------------------------------------------------------------------
+DEADLINE = None  # set by the driver: wall-clock limit for all abstract executions of one check run
+TIER_NAME = "quick"
 COND_INFO = {}   # choice key ('c', text, n) -> CondV of an exact but unrefinable comparison
 _PYOPS = {"Eq": lambda x, y: x == y, "NotEq": lambda x, y: x != y, "Lt": lambda x, y: x < y, "LtE": lambda x, y: x <= y,
           "Gt": lambda x, y: x > y, "GtE": lambda x, y: x >= y}
